@@ -504,7 +504,7 @@ func (f *Frame) call1(x *ssa.Call, rec *CallRec) AV {
 		f.an.ucalls = append(f.an.ucalls, UCall{fn: callee, args: args, res: res, state: f.cur, pos: x.Pos(), frame: f, nwrite: nw})
 		return res
 	}
-	if callee.Blocks != nil && f.an.ctx.inModule(callee) && f.depth < maxDepth && !f.recursive(callee) {
+	if callee.Blocks != nil && f.an.ctx.inModule(callee) && f.depth < maxDepth && !f.recursive(callee) && (f.an.noInline == nil || !f.an.noInline(callee)) {
 		return f.inline(x, callee, args, key)
 	}
 	f.escapeArgs(args)
